@@ -17,24 +17,66 @@ import (
 	"verifharness/vk"
 )
 
+// A trig is a schedule point on a member context of the harness's own type (probeCtx): at the N-th call of any of the
+// member's context methods (Done / Err / Deadline / Value, counted together) the harness ends another member - or the
+// member itself - before the method returns. It places the end of a member exactly where NewPool / Add are looking at
+// the contexts, which is what a cancellation from another goroutine does by chance.
+type trig struct {
+	N      int  // the call (1..) at which it fires
+	Target int  // -1: the member itself; otherwise member Target % (number of members existing when the context is handed over)
+	After  bool // false: the target ends before the method computes its result; true: after that, just before it returns
+}
+
+func (g trig) String() string {
+	when, who := "before", fmt.Sprintf("member %d", g.Target)
+	if g.After {
+		when = "after"
+	}
+	if g.Target < 0 {
+		who = "itself"
+	}
+	return fmt.Sprintf("call#%d:%s-result->end %s", g.N, when, who)
+}
+
 // An op of a pool history.
 type op struct {
-	Kind  string // "end" member i | "add" (Ended: context already ended) | "cancel" pool | "size" | "race" (end member i while adding concurrently)
+	Kind  string // "end" member i | "add" (Ended: context already ended) | "cancel" pool | "size" | "race" (end member i while adding concurrently) | "tick" (the clock advances 2K units)
 	I     int
 	Ended bool
-	Never int // add: 0 = cancellable context; 1..3 = a context that can never end (Background / WithValue(Background) / WithoutCancel)
+	Never int    // add: 0 = cancellable context; 1..3 = a context that can never end (Background / WithValue(Background) / WithoutCancel)
+	DL    int    // add: 0 = no deadline; k>0 = a deadline 2k-1 units after the context's creation (an Ended one: that long ago)
+	Trig  []trig // add: schedule points on the added context (only when the case's members are of the harness's own type)
+	K     int    // tick
 }
 
 type poolCase struct {
-	Init      []bool // initial members; true = already ended when passed to NewPool
-	InitNever []int  // per initial member: 0 cancellable, 1..3 a context that can never end
+	Init      []bool   // initial members; true = already ended when passed to NewPool
+	InitNever []int    // per initial member: 0 cancellable, 1..3 a context that can never end
+	InitDL    []int    // per initial member: 0 no deadline, k>0 a deadline 2k-1 units after creation (ended: that long ago)
+	InitTrig  [][]trig // per initial member: schedule points (Own only)
+	Own       bool     // every cancellable member is handed over wrapped in a context of the harness's own type
+	Unit      int      // the time unit of deadlines and ticks: 0 millisecond, 1 second, 2 hour (virtual time)
 	Ops       []op
-	Finish    string // "members": end every live member at the end; "cancel": Pool.Cancel
+	Finish    string // "members": (the clock passes every deadline, then) end every live member at the end; "cancel": Pool.Cancel
 }
+
+var units = []time.Duration{time.Millisecond, time.Second, time.Hour}
+
+func (c poolCase) unit() time.Duration { return units[c.Unit%len(units)] }
 
 func (c poolCase) String() string {
 	var b strings.Builder
-	fmt.Fprintf(&b, "pool{init=%v initNever=%v ops=[", c.Init, c.InitNever)
+	fmt.Fprintf(&b, "pool{init=%v initNever=%v", c.Init, c.InitNever)
+	if c.Own {
+		fmt.Fprintf(&b, " own-type-members initTrig=%v", c.InitTrig)
+	}
+	for _, d := range c.InitDL {
+		if d > 0 {
+			fmt.Fprintf(&b, " initDeadline=%v(x%v: k means 2k-1 units after creation)", c.InitDL, c.unit())
+			break
+		}
+	}
+	b.WriteString(" ops=[")
 	for i, o := range c.Ops {
 		if i > 0 {
 			b.WriteString(" ")
@@ -46,8 +88,17 @@ func (c poolCase) String() string {
 			if o.Never > 0 {
 				fmt.Fprintf(&b, "add(never-ending#%d)", o.Never)
 			} else {
-				fmt.Fprintf(&b, "add(ended=%v)", o.Ended)
+				fmt.Fprintf(&b, "add(ended=%v", o.Ended)
+				if o.DL > 0 {
+					fmt.Fprintf(&b, " deadline=+%v", time.Duration(2*o.DL-1)*c.unit())
+				}
+				if len(o.Trig) > 0 && c.Own {
+					fmt.Fprintf(&b, " trig=%v", o.Trig)
+				}
+				b.WriteString(")")
 			}
+		case "tick":
+			fmt.Fprintf(&b, "tick(+%v)", time.Duration(2*o.K)*c.unit())
 		case "race":
 			fmt.Fprintf(&b, "race(end(%d)||add)", o.I)
 		default:
@@ -59,11 +110,104 @@ func (c poolCase) String() string {
 }
 
 type member struct {
-	ctx     context.Context
-	cancel  context.CancelFunc
-	ended   bool
-	tracked bool
-	never   bool // its Done channel is nil: it cannot end
+	ctx      context.Context // what the pool is given (a probeCtx around the context when the case says Own)
+	cancel   context.CancelFunc
+	ended    bool
+	tracked  bool
+	never    bool      // its Done channel is nil: it cannot end
+	deadline time.Time // zero: none
+	probe    *probeCtx
+}
+
+// probeCtx is a member context of the harness's own type: an ordinary context (every method answers what the wrapped
+// context answers) whose method calls are counted and are schedule points (see trig). The harness itself never calls
+// its methods: every call comes from the code under test (or from the context package on its behalf).
+type probeCtx struct {
+	context.Context
+	mu    sync.Mutex
+	calls int
+	trigs []armedTrig
+	log   *firedLog
+}
+
+type armedTrig struct {
+	n      int
+	after  bool
+	target *member
+}
+
+// firedLog lists the members ended by schedule points; the case's own goroutine drains it into the model.
+type firedLog struct {
+	mu sync.Mutex
+	ms []*member
+}
+
+func (l *firedLog) fire(m *member) {
+	m.cancel()
+	l.mu.Lock()
+	l.ms = append(l.ms, m)
+	l.mu.Unlock()
+}
+
+func (l *firedLog) take() []*member {
+	l.mu.Lock()
+	defer l.mu.Unlock()
+	ms := l.ms
+	l.ms = nil
+	return ms
+}
+
+// point is called on entry of every method; what it returns runs just before the method returns.
+func (p *probeCtx) point() func() {
+	p.mu.Lock()
+	p.calls++
+	var before, after []*member
+	for _, g := range p.trigs {
+		if g.n == p.calls {
+			if g.after {
+				after = append(after, g.target)
+			} else {
+				before = append(before, g.target)
+			}
+		}
+	}
+	p.mu.Unlock()
+	for _, m := range before {
+		p.log.fire(m)
+	}
+	return func() {
+		for _, m := range after {
+			p.log.fire(m)
+		}
+	}
+}
+
+func (p *probeCtx) Done() <-chan struct{} {
+	after := p.point()
+	ch := p.Context.Done()
+	after()
+	return ch
+}
+
+func (p *probeCtx) Err() error {
+	after := p.point()
+	err := p.Context.Err()
+	after()
+	return err
+}
+
+func (p *probeCtx) Deadline() (time.Time, bool) {
+	after := p.point()
+	d, ok := p.Context.Deadline()
+	after()
+	return d, ok
+}
+
+func (p *probeCtx) Value(key any) any {
+	after := p.point()
+	v := p.Context.Value(key)
+	after()
+	return v
 }
 
 type outcome struct {
@@ -72,6 +216,15 @@ type outcome struct {
 	raced        bool
 	raceAccepted int
 	raceIgnored  int
+
+	own            bool // members of the harness's own type were handed over
+	endedInNewPool bool // a member ended while NewPool was looking at the contexts
+	endedInAdd     bool // a member (another one, or the added one) ended while Add was looking at the context
+	lastInAdd      bool // ... and it was the last live member
+	deadlines      bool // some member has a deadline
+	clockEnded     bool // a member was ended by the clock (its deadline passed while it was a live member)
+	allInitDL      bool // every initial context (at least one) has a deadline
+	outlived       bool // the clock passed the latest deadline of the initial contexts - all of which have one - while a later member was live
 }
 
 // runPool executes the history inside a bubble against the model.
@@ -80,6 +233,14 @@ func runPool(t *testing.T, c poolCase) (out outcome, err error) {
 	berr := vk.Bubble(t, c.String(), func() {
 		var ms []*member
 		type ctxKey struct{}
+		unit := c.unit()
+		fired := &firedLog{}
+		defer func() {
+			// whatever happened: no member (and no deadline timer) outlives the case
+			for _, m := range ms {
+				m.cancel()
+			}
+		}()
 		newNever := func(kind int) *member {
 			var ctx context.Context
 			switch kind {
@@ -96,26 +257,67 @@ func runPool(t *testing.T, c poolCase) (out outcome, err error) {
 			ms = append(ms, m)
 			return m
 		}
-		newMember := func(ended bool) *member {
+		newMember := func(ended bool, dl int) *member {
+			m := &member{}
 			ctx, cancel := context.WithCancel(context.Background())
-			// members end in different ways: plain cancel, cancel with a cause, or a deadline that has (or has just)
-			// passed - the pool must only look at Done
-			switch len(ms) % 3 {
-			case 1:
+			// members end in different ways: plain cancel, cancel with a cause, or a deadline (one that passes while
+			// the member is in the pool, or one that has passed) - the pool must only look at Done
+			switch {
+			case dl > 0:
+				d := time.Duration(2*dl-1) * unit
+				if ended {
+					d = -d
+				}
+				m.deadline = time.Now().Add(d)
+				ctx, cancel = context.WithDeadline(context.Background(), m.deadline)
+				out.deadlines = true
+			case len(ms)%3 == 1:
 				c2, cc := context.WithCancelCause(context.Background())
 				ctx, cancel = c2, func() { cc(errVerifCause) }
-			case 2:
+			case len(ms)%3 == 2:
 				if ended {
-					ctx, cancel = context.WithDeadline(context.Background(), time.Now().Add(-time.Second))
+					m.deadline = time.Now().Add(-time.Second)
+					ctx, cancel = context.WithDeadline(context.Background(), m.deadline)
 				}
 			}
-			m := &member{ctx: ctx, cancel: cancel}
+			m.ctx, m.cancel = ctx, cancel
+			if c.Own {
+				m.probe = &probeCtx{Context: ctx, log: fired}
+				m.ctx = m.probe
+				out.own = true
+			}
 			if ended {
 				cancel()
 				m.ended = true
 			}
 			ms = append(ms, m)
 			return m
+		}
+		// arm resolves the schedule points of a member against the members that exist now
+		arm := func(m *member, trigs []trig) {
+			if m.probe == nil {
+				return
+			}
+			m.probe.mu.Lock()
+			defer m.probe.mu.Unlock()
+			for _, g := range trigs {
+				target := m
+				if g.Target >= 0 {
+					target = ms[g.Target%len(ms)]
+				}
+				m.probe.trigs = append(m.probe.trigs, armedTrig{n: g.N, after: g.After, target: target})
+			}
+		}
+		// drain moves the members ended by schedule points into the model and returns those that were live
+		drain := func() (newly []*member) {
+			for _, m := range fired.take() {
+				if m.never || m.ended {
+					continue
+				}
+				m.ended = true
+				newly = append(newly, m)
+			}
+			return newly
 		}
 		var init []context.Context
 		for i, e := range c.Init {
@@ -125,10 +327,29 @@ func runPool(t *testing.T, c poolCase) (out outcome, err error) {
 				m.tracked = true
 				out.neverEnding = true
 			} else {
-				m = newMember(e)
+				dl := 0
+				if i < len(c.InitDL) {
+					dl = c.InitDL[i]
+				}
+				m = newMember(e, dl)
 				m.tracked = !e // members already ended at creation are not tracked
 			}
 			init = append(init, m.ctx)
+		}
+		// every initial context has a deadline (one that has passed counts: Deadline() reports it)?
+		var latestInit time.Time
+		out.allInitDL = len(c.Init) > 0
+		for i := range c.Init {
+			if ms[i].deadline.IsZero() {
+				out.allInitDL = false
+			} else if ms[i].deadline.After(latestInit) {
+				latestInit = ms[i].deadline
+			}
+		}
+		for i := range c.Init {
+			if i < len(c.InitTrig) {
+				arm(ms[i], c.InitTrig[i])
+			}
 		}
 		// The caller's slice stays the caller's: it is handed over with spare capacity, and straight after NewPool every
 		// element is overwritten with an already-ended context and the spare capacity is filled with more of them.
@@ -154,11 +375,14 @@ func runPool(t *testing.T, c poolCase) (out outcome, err error) {
 			}
 			return true
 		}
+		// slack: members that ended WHILE NewPool / Add were looking at them may or may not be among the members the
+		// pool tracks (they were live when the call began and ended when it returned); Size tells, once, how many are.
+		slack := 0
 		size := func() int {
 			if cancelled {
 				return 0
 			}
-			n := 0
+			n := slack
 			for _, m := range ms {
 				if m.tracked {
 					n++
@@ -166,9 +390,27 @@ func runPool(t *testing.T, c poolCase) (out outcome, err error) {
 			}
 			return n
 		}
+		if newly := drain(); len(newly) > 0 {
+			out.endedInNewPool = true
+			maybe := 0
+			for _, m := range newly {
+				if m.tracked {
+					m.tracked = false
+					maybe++
+				}
+			}
+			synctest.Wait()
+			if s := pool.Size(); s < size() || s > size()+maybe {
+				errs.Failf("after NewPool (%d members ended while it ran): Size()=%d, want %d..%d", maybe, s, size(), size()+maybe)
+				return
+			} else {
+				slack = s - size()
+			}
+		}
 		done := modelDone() // sticky: once done the pool stays done
 		check := func(step string) bool {
 			synctest.Wait()
+			drain() // (a schedule point reached from a goroutine of the pool)
 			if modelDone() {
 				done = true
 			}
@@ -180,11 +422,11 @@ func runPool(t *testing.T, c poolCase) (out outcome, err error) {
 						live = append(live, i)
 					}
 				}
-				errs.Failf("after %s: the pool is cancelled while tracked members %v have not ended", step, live)
+				errs.Failf("after %s: the pool is cancelled (Err()=%v) while tracked members %v have not ended", step, pool.Err(), live)
 				return false
 			}
 			if !got && done {
-				errs.Failf("after %s: every tracked member has ended (or Cancel was called) but the pool context is not cancelled", step)
+				errs.Failf("after %s: every tracked member has ended (or Cancel was called) but the pool context is not cancelled (Size()=%d)", step, pool.Size())
 				return false
 			}
 			select {
@@ -219,24 +461,108 @@ func runPool(t *testing.T, c poolCase) (out outcome, err error) {
 			m.cancel()
 			m.ended = true
 		}
+		// sleep lets the bubble's clock advance; members whose deadline has passed have ended
+		sleep := func(d time.Duration) {
+			time.Sleep(d)
+			now := time.Now()
+			for _, m := range ms {
+				if !m.ended && !m.deadline.IsZero() && m.deadline.Before(now) {
+					m.ended = true
+					if m.tracked {
+						out.clockEnded = true
+					}
+				}
+			}
+			if out.allInitDL && latestInit.Before(now) && !cancelled && !modelDone() {
+				out.outlived = true
+			}
+		}
+		// lastEnded settles an Add (of m) during which the last live member ended: the Add may have been accepted or
+		// ignored (the statement allows both), Size tells which; everything else stays exact.
+		lastEnded := func(m *member, sizeBefore int, step string) bool {
+			synctest.Wait()
+			switch pool.Size() {
+			case sizeBefore + 1:
+				out.raceAccepted++
+				m.tracked = true
+				if pool.Err() != nil {
+					// accepted after the last member ended but before the watcher cancelled: allowed
+					done = true
+				}
+			case sizeBefore:
+				out.raceIgnored++
+				if pool.Err() == nil {
+					errs.Failf("after %s: Add was ignored and every member ended, but the pool is not cancelled", step)
+					return false
+				}
+			default:
+				errs.Failf("after %s: Size()=%d, want %d or %d", step, pool.Size(), sizeBefore, sizeBefore+1)
+				return false
+			}
+			return true
+		}
 		for k, o := range c.Ops {
 			step := fmt.Sprintf("op %d %s", k, o.Kind)
 			switch o.Kind {
 			case "end":
 				end(o.I)
+			case "tick":
+				sleep(time.Duration(2*o.K) * unit)
 			case "add":
 				var m *member
 				if o.Never > 0 {
 					m = newNever(o.Never)
 					out.neverEnding = true
 				} else {
-					m = newMember(o.Ended)
+					m = newMember(o.Ended, o.DL)
+					arm(m, o.Trig)
 				}
 				liveBefore := !done
+				sizeBefore := size()
 				pool.Add(m.ctx)
-				if liveBefore {
-					m.tracked = true // pool live and (settled) some member live: must be accepted
-					if !o.Ended || o.Never > 0 {
+				newly := drain()
+				if len(newly) == 0 {
+					if liveBefore {
+						m.tracked = true // pool live and (settled) some member live: must be accepted
+						if !o.Ended || o.Never > 0 {
+							out.addWhileLive = true
+						}
+					}
+					break
+				}
+				// Members ended while Add was looking at the context (now marked ended in the model).
+				out.endedInAdd = true
+				if !liveBefore {
+					break // the pool had ended before: the context is ignored, whatever ends meanwhile
+				}
+				othersLive := false
+				for _, x := range ms {
+					if x != m && x.tracked && !x.ended {
+						othersLive = true
+					}
+				}
+				switch {
+				case !othersLive:
+					// the last live member ended during the Add
+					out.lastInAdd = true
+					if !lastEnded(m, sizeBefore, step) {
+						return
+					}
+				case m.ended && !o.Ended:
+					// the added context itself ended during its Add, others are live: it was offered live to a live
+					// pool, whether it is among the tracked ones is told by Size
+					synctest.Wait()
+					switch pool.Size() {
+					case sizeBefore + 1:
+						m.tracked = true
+					case sizeBefore:
+					default:
+						errs.Failf("after %s: Size()=%d, want %d or %d", step, pool.Size(), sizeBefore, sizeBefore+1)
+						return
+					}
+				default:
+					m.tracked = true // another member is still live: must be accepted
+					if !m.ended {
 						out.addWhileLive = true
 					}
 				}
@@ -248,7 +574,7 @@ func runPool(t *testing.T, c poolCase) (out outcome, err error) {
 				// usually not yet cancelled the pool context, and the context must still be ignored.
 				pool.Cancel()
 				cancelled = true
-				m := newMember(false)
+				m := newMember(false, 0)
 				pool.Add(m.ctx)
 			case "size":
 			case "race":
@@ -263,7 +589,7 @@ func runPool(t *testing.T, c poolCase) (out outcome, err error) {
 				if target.never {
 					continue
 				}
-				m := newMember(false)
+				m := newMember(false, 0)
 				sizeBefore := size()
 				fin := make(chan struct{}, 2)
 				errs.Go(func() { target.cancel(); fin <- struct{}{} })
@@ -275,26 +601,9 @@ func runPool(t *testing.T, c poolCase) (out outcome, err error) {
 				if !modelDone() {
 					// another member is still live: the Add must have been accepted
 					m.tracked = true
-				} else {
+				} else if !lastEnded(m, sizeBefore, step) {
 					// the ended member was the last live one: both outcomes are allowed, Size tells which
-					switch pool.Size() {
-					case sizeBefore + 1:
-						out.raceAccepted++
-						m.tracked = true
-						if pool.Err() != nil {
-							// accepted after the last member ended but before the watcher cancelled: allowed
-							done = true
-						}
-					case sizeBefore:
-						out.raceIgnored++
-						if pool.Err() == nil {
-							errs.Failf("after %s: Add was ignored and every member ended, but the pool is not cancelled", step)
-							return
-						}
-					default:
-						errs.Failf("after %s: Size()=%d, want %d or %d", step, pool.Size(), sizeBefore, sizeBefore+1)
-						return
-					}
+					return
 				}
 			}
 			if !check(step) {
@@ -305,6 +614,19 @@ func runPool(t *testing.T, c poolCase) (out outcome, err error) {
 			pool.Cancel()
 			cancelled = true
 		} else {
+			// the clock passes every deadline: members without one (or ended by hand) are untouched
+			var last time.Time
+			for _, m := range ms {
+				if m.deadline.After(last) {
+					last = m.deadline
+				}
+			}
+			if now := time.Now(); last.After(now) {
+				sleep(last.Sub(now) + unit)
+				if !check("the clock passed every deadline") {
+					return
+				}
+			}
 			for i := range ms {
 				end(i)
 			}
@@ -321,16 +643,13 @@ func runPool(t *testing.T, c poolCase) (out outcome, err error) {
 			return
 		}
 		// contexts offered after the pool ended are ignored
-		late := newMember(false)
+		late := newMember(false, 0)
 		before := pool.Size()
 		pool.Add(late.ctx)
 		if pool.Size() != before {
 			errs.Failf("a context offered after the pool ended was accepted (Size %d -> %d)", before, pool.Size())
 		}
 		late.cancel()
-		for _, m := range ms {
-			m.cancel()
-		}
 	})
 	if e := errs.Err(); e != nil {
 		return out, e
@@ -347,36 +666,98 @@ func genCase(rt *rapid.T) poolCase {
 	if rapid.IntRange(0, 3).Draw(rt, "large") == 0 {
 		maxInit, maxOps, maxI = 40, 70, 99
 	}
+	// one case in three hands over members of the harness's own type, whose method calls are schedule points
+	c.Own = rapid.IntRange(0, 2).Draw(rt, "own") == 0
+	// deadlines: 0 none | 1 any member may have one | 2 every initial context has one (later ones may or may not)
+	dlMode := rapid.SampledFrom([]int{0, 0, 1, 2}).Draw(rt, "deadlineMode")
+	if dlMode > 0 {
+		c.Unit = rapid.IntRange(0, 2).Draw(rt, "unit")
+	}
+	genDL := func(always bool) int {
+		if dlMode == 0 || (!always && rapid.IntRange(0, 1).Draw(rt, "hasDeadline") == 0) {
+			return 0
+		}
+		return rapid.IntRange(1, 4).Draw(rt, "deadline")
+	}
+	genTrig := func() []trig {
+		if !c.Own || rapid.IntRange(0, 2).Draw(rt, "hasTrig") != 0 {
+			return nil
+		}
+		var gs []trig
+		for i, n := 0, rapid.IntRange(1, 2).Draw(rt, "ntrig"); i < n; i++ {
+			gs = append(gs, trig{N: rapid.IntRange(1, 4).Draw(rt, "call"), Target: rapid.IntRange(-1, maxI).Draw(rt, "target"), After: rapid.Bool().Draw(rt, "after")})
+		}
+		return gs
+	}
 	n := rapid.IntRange(0, maxInit).Draw(rt, "ninit")
 	for i := 0; i < n; i++ {
 		c.Init = append(c.Init, rapid.IntRange(0, 3).Draw(rt, "initEnded") == 0)
 		nv := 0
-		if rapid.IntRange(0, 7).Draw(rt, "initNever") == 0 {
+		if dlMode != 2 && rapid.IntRange(0, 7).Draw(rt, "initNever") == 0 {
 			nv = rapid.IntRange(1, 3).Draw(rt, "neverKind")
 		}
 		c.InitNever = append(c.InitNever, nv)
+		c.InitDL = append(c.InitDL, genDL(dlMode == 2))
+		c.InitTrig = append(c.InitTrig, genTrig())
 	}
 	nops := rapid.IntRange(0, maxOps).Draw(rt, "nops")
 	for i := 0; i < nops; i++ {
-		switch rapid.IntRange(0, 9).Draw(rt, "kind") {
+		switch rapid.IntRange(0, 11).Draw(rt, "kind") {
 		case 0, 1, 2:
 			c.Ops = append(c.Ops, op{Kind: "end", I: rapid.IntRange(0, maxI).Draw(rt, "i")})
 		case 3, 4, 5:
 			o := op{Kind: "add", Ended: rapid.IntRange(0, 3).Draw(rt, "ended") == 0}
 			if rapid.IntRange(0, 5).Draw(rt, "never") == 0 {
 				o.Never = rapid.IntRange(1, 3).Draw(rt, "neverKind")
+			} else {
+				o.DL = genDL(false)
+				o.Trig = genTrig()
 			}
 			c.Ops = append(c.Ops, o)
 		case 6:
 			c.Ops = append(c.Ops, op{Kind: "size"})
 		case 7, 8:
 			c.Ops = append(c.Ops, op{Kind: "race", I: rapid.IntRange(0, maxI).Draw(rt, "i")})
-		default:
+		case 9:
 			c.Ops = append(c.Ops, op{Kind: rapid.SampledFrom([]string{"cancel", "cancel+add"}).Draw(rt, "cancelKind")})
+		default:
+			if dlMode == 0 {
+				c.Ops = append(c.Ops, op{Kind: "size"})
+			} else {
+				c.Ops = append(c.Ops, op{Kind: "tick", K: rapid.IntRange(1, 3).Draw(rt, "k")})
+			}
 		}
 	}
 	c.Finish = rapid.SampledFrom([]string{"members", "members", "cancel"}).Draw(rt, "finish")
 	return c
+}
+
+// classes of a passed case, for the evidence
+func (out outcome) classes() []string {
+	var cls []string
+	add := func(on bool, name string) {
+		if on {
+			cls = append(cls, name)
+		}
+	}
+	add(out.addWhileLive, "add-while-live")
+	add(out.raced, "raced")
+	add(out.raceAccepted > 0, "race-last-member.accepted")
+	add(out.raceIgnored > 0, "race-last-member.ignored")
+	add(out.neverEnding, "never-ending-member")
+	add(out.own, "own-type-members")
+	add(out.endedInNewPool, "member-ended-during-NewPool")
+	add(out.endedInAdd, "member-ended-during-Add")
+	add(out.lastInAdd, "last-member-ended-during-Add")
+	add(out.deadlines, "deadline-members")
+	add(out.clockEnded, "member-ended-by-clock")
+	add(out.allInitDL, "every-initial-context-has-deadline")
+	add(out.outlived, "later-member-live-past-latest-initial-deadline")
+	return cls
+}
+
+func (out outcome) nontrivial() bool {
+	return out.addWhileLive || out.raced || out.endedInNewPool || out.endedInAdd || out.clockEnded
 }
 
 var errVerifCause = errors.New("verif: member ended with a cause")
@@ -389,23 +770,7 @@ func TestPoolHistories(t *testing.T) {
 		if err != nil {
 			rt.Fatalf("C20 context.Pool violated: %v\ncase: %s", err, c)
 		}
-		var cls []string
-		if out.addWhileLive {
-			cls = append(cls, "add-while-live")
-		}
-		if out.raced {
-			cls = append(cls, "raced")
-		}
-		if out.raceAccepted > 0 {
-			cls = append(cls, "race-last-member.accepted")
-		}
-		if out.raceIgnored > 0 {
-			cls = append(cls, "race-last-member.ignored")
-		}
-		if out.neverEnding {
-			cls = append(cls, "never-ending-member")
-		}
-		sec.Case(out.addWhileLive || out.raced, vk.FP(c.String()), cls...)
+		sec.Case(out.nontrivial(), vk.FP(c.String()), out.classes()...)
 		sec.Sample(func() any { return c.String() })
 	})
 }
